@@ -60,6 +60,7 @@ def _trso_call(g, gd, q, doms):
 
 
 def run_shard(ctx):
+    gg.ALLOW_ODD = True  # node names that are not Python identifiers are node names like any other
     gg.ALLOW_PREFIXED = False  # a name T_x is a selection node for the transport algorithms
     mon_id.install(semantic=False)
     mon_trso.install(semantic=False)
